@@ -13,12 +13,13 @@ Record lparams := {
   cleanup_clears_in_finally : bool;     (* _cleanup: try: on_disconnect(self) finally: <clear the tables> - a raising hook cannot keep them *)
   serve_read_eof_closes : bool;         (* serve(): except EOFError: self.close(); raise   around poll/recv *)
   serve_dispatch_eof_closes : bool;     (* serve(): EOFError escaping _dispatch also closes *)
-  serve_all_finally_closes : bool       (* serve_all(): finally: self.close() *)
+  serve_all_finally_closes : bool;      (* serve_all(): finally: self.close() *)
+  handle_close_guarded : bool           (* _handle_close: self._cleanup(_anyway=False) - a close request served while close() itself is under way leaves the cleanup to close() *)
 }.
 Definition std_params : lparams :=
   {| close_checks_closed_first := true; close_sets_closed_before_io := true; close_cleanup_in_finally := true;
      close_swallows_eof := true; cleanup_hook_once_guard := true; cleanup_clears_in_finally := true; serve_read_eof_closes := true;
-     serve_dispatch_eof_closes := true; serve_all_finally_closes := true |}.
+     serve_dispatch_eof_closes := true; serve_all_finally_closes := true; handle_close_guarded := true |}.
 
 Record side := {
   closed : bool;        (* conn.closed *)
@@ -33,6 +34,9 @@ Inductive ctx := InWait | InServeAll.        (* who called serve: AsyncResult.wa
 Inductive entry :=
 | EClose (w : wres)            (* the application calls close() *)
 | EHandleClose                 (* the peer's close request is dispatched *)
+| ECloseServing (w : wres)     (* close() is not atomic: it sets the flag, then runs the before_closed hook / fetches the root - requests
+                                  during which this side serves - and only then writes its close request and cleans up. This entry is a
+                                  close() during whose serving the PEER's close request is dispatched (both sides closing at once) *)
 | EServeReadEof (c : ctx)      (* poll/recv inside serve ends in EOFError (end of stream or failure at any byte offset) *)
 | EDispatchEof (c : ctx).      (* a write made from inside _dispatch (reply, nested request) ends in EOFError *)
 
@@ -51,10 +55,10 @@ Definition cleanup (P : lparams) (hr : bool) (anyway : bool) (s : side) : side *
     ({| closed := true; hooks := hooks s; has_root := false; chan_open := false |}, RAttr)
   else ({| closed := true; hooks := S (hooks s); has_root := false; chan_open := false |}, if hr then ROther else RNone).
 
-Definition do_close (P : lparams) (hr : bool) (w : wres) (s : side) : side * raised :=
-  if close_checks_closed_first P && closed s then (s, RNone) else
-  let s1 := if close_sets_closed_before_io P
-            then {| closed := true; hooks := hooks s; has_root := has_root s; chan_open := chan_open s |} else s in
+Definition set_closed_flag (P : lparams) (s : side) : side :=
+  if close_sets_closed_before_io P then {| closed := true; hooks := hooks s; has_root := has_root s; chan_open := chan_open s |} else s.
+(* close() from the write of its close request on *)
+Definition close_tail (P : lparams) (hr : bool) (w : wres) (s1 : side) : side * raised :=
   (* the write fails at once when the channel is already closed *)
   let w' := if chan_open s1 then w else WEof in
   let escapes := match w' with WOk => RNone | WEof => if close_swallows_eof P then RNone else REof | WErr => ROther end in
@@ -64,11 +68,22 @@ Definition do_close (P : lparams) (hr : bool) (w : wres) (s : side) : side * rai
        | RNone => cleanup P hr true s1
        | r => (s1, r)
        end.
+Definition do_close (P : lparams) (hr : bool) (w : wres) (s : side) : side * raised :=
+  if close_checks_closed_first P && closed s then (s, RNone) else close_tail P hr w (set_closed_flag P s).
+(* the peer's close request: the raw cleanup, or (guarded) a cleanup that leaves an already closing side to its own close() *)
+Definition handle_close (P : lparams) (hr : bool) (s : side) : side * raised :=
+  if has_root s then cleanup P hr (negb (handle_close_guarded P)) s else (s, RAttr).   (* after a cleanup the handler table is gone *)
+Definition do_close_serving (P : lparams) (hr : bool) (w : wres) (s : side) : side * raised :=
+  if close_checks_closed_first P && closed s then (s, RNone) else
+  let s1 := set_closed_flag P s in
+  let s2 := fst (handle_close P hr s1) in        (* whatever the handler raises goes to the peer as its answer, not to close() *)
+  close_tail P hr w s2.
 
 Definition step (P : lparams) (hr : bool) (e : entry) (s : side) : side * raised :=
   match e with
   | EClose w => do_close P hr w s
-  | EHandleClose => if has_root s then cleanup P hr true s else (s, RAttr)   (* after a cleanup the handler table is gone *)
+  | EHandleClose => handle_close P hr s
+  | ECloseServing w => do_close_serving P hr w s
   | EServeReadEof c =>
       let s0 := {| closed := closed s; hooks := hooks s; has_root := has_root s; chan_open := false |} in   (* the stream closed itself *)
       let '(s1, _) := if serve_read_eof_closes P then do_close P hr WEof s0 else (s0, RNone) in
@@ -93,10 +108,10 @@ Definition ended_clean (s : side) : Prop := closed s = true /\ hooks s = 1 /\ ha
 (* ---- harness interface ---- *)
 Definition params_of_sx (x : sx) : lparams :=
   match x with
-  | SL [a; b; c; d; e; k; f; g; h] =>
+  | SL [a; b; c; d; e; k; f; g; h; hg] =>
       {| close_checks_closed_first := sx_bool a; close_sets_closed_before_io := sx_bool b; close_cleanup_in_finally := sx_bool c;
          close_swallows_eof := sx_bool d; cleanup_hook_once_guard := sx_bool e; cleanup_clears_in_finally := sx_bool k; serve_read_eof_closes := sx_bool f;
-         serve_dispatch_eof_closes := sx_bool g; serve_all_finally_closes := sx_bool h |}
+         serve_dispatch_eof_closes := sx_bool g; serve_all_finally_closes := sx_bool h; handle_close_guarded := sx_bool hg |}
   | _ => std_params
   end.
 Definition entry_of_sx (x : sx) : entry :=
@@ -105,11 +120,20 @@ Definition entry_of_sx (x : sx) : entry :=
   | SL [SI 1] => EHandleClose
   | SL [SI 2; c] => EServeReadEof (if sx_bool c then InServeAll else InWait)
   | SL [SI 3; c] => EDispatchEof (if sx_bool c then InServeAll else InWait)
+  | SL [SI 4; SI w] => ECloseServing (if Z.eqb w 0 then WOk else if Z.eqb w 1 then WEof else WErr)
   | _ => EHandleClose
   end%Z.
 Definition sx_side (s : side) : sx := SL [sbool (closed s); snat (hooks s); sbool (has_root s); sbool (chan_open s)].
+Definition raised_n (r : raised) : Z := match r with RNone => 0 | REof => 1 | RAttr => 2 | ROther => 3 end%Z.
+Fixpoint runs_raised (P : lparams) (hr : bool) (es : list entry) (s : side) : side * list raised :=
+  match es with
+  | [] => (s, [])
+  | e :: t => let '(s1, r) := step P hr e s in let '(s2, rs) := runs_raised P hr t s1 in (s2, r :: rs)
+  end.
 Definition run_lifecycle (x : sx) : sx :=
   match x with
+  | SL [p; hr; SL es; _] =>       (* with what each entry raised at its caller *)
+      let '(s, rs) := runs_raised (params_of_sx p) (sx_bool hr) (map entry_of_sx es) fresh in SL [sx_side s; SL (map (fun r => SI (raised_n r)) rs)]
   | SL [p; hr; SL es] => sx_side (runs (params_of_sx p) (sx_bool hr) (map entry_of_sx es) fresh)
   | _ => bad_input
   end.
